@@ -301,6 +301,7 @@ class C18(core.Check):
             'its own line vs in front of its statement, consecutive instructions joined on one line. Every rewrite kind alone '
             'and all together. All renderings must assemble to the canonical image. distinct_nontrivial = distinct (rewrite '
             'kind set, instruction mnemonics touched) tuples.')
+    rule = rule + ' ' + 'The rewrites are also applied to #include lines.'
     assumptions = ('labels never equal a mnemonic; enumeration keys keep their case (they are neither registers nor mnemonics)',
                    'only instructions are joined on one line (not directives)')
     chunk = 900
